@@ -41,7 +41,19 @@ type ErrSpec struct {
 	// Nested: the body gets the error by invoking a compiled one-node graph of its own (node "x"
 	// fails with the base error) and puts the Wraps layers around what that run returned.
 	Nested bool `json:"nested,omitempty"`
+	// Typed: a typed error with an Unwrap method (ctxErr, payload TCode) goes around the base /
+	// nested-run error, below the %w layers.
+	Typed bool `json:"typed,omitempty"`
+	TCode int  `json:"tcode,omitempty"`
 }
+
+type ctxErr struct {
+	code  int
+	cause error
+}
+
+func (c *ctxErr) Error() string { return "ctx #" + strconv.Itoa(c.code) + ": " + c.cause.Error() }
+func (c *ctxErr) Unwrap() error { return c.cause }
 
 func nestedError(base error) error {
 	g := compose.NewGraph[M, M]()
@@ -123,6 +135,9 @@ func (e *ErrSpec) mk() error {
 	if e.Nested {
 		err = nestedError(err)
 	}
+	if e.Typed {
+		err = &ctxErr{e.TCode, err}
+	}
 	for i := 0; i < e.Wraps; i++ {
 		err = fmt.Errorf("layer %d: %w", i, err)
 	}
@@ -145,6 +160,9 @@ func (e *ErrSpec) coq() string {
 	}
 	if e.Nested {
 		t = "(Internal NodeRunError [] [\"x\"%string] " + t + ")"
+	}
+	if e.Typed {
+		t = "(CustomW 2%N " + lib.CoqN(uint64(e.TCode)) + " " + t + ")"
 	}
 	for i := 0; i < e.Wraps; i++ {
 		t = "(Wrapf " + t + ")"
@@ -436,7 +454,7 @@ type Proj struct {
 	NodePath   []string `json:"node_path,omitempty"`
 	StreamPath []string `json:"stream_path,omitempty"`
 	Is         []bool   `json:"is"`                  // errors.Is for s0, s1, ErrExceedMaxSteps, context.Canceled, InterruptAndRerun, ErrRecvAfterClosed
-	As         []int    `json:"as"`                  // errors.As for custom0, custom1: code or -1
+	As         []int    `json:"as"`                  // errors.As for custom0, custom1, ctxErr: code or -1
 	Panic      int      `json:"panic"`               // payload of a recovered panic on the chain, -1 if none
 	Interrupt  bool     `json:"interrupt,omitempty"` // compose.ExtractInterruptInfo succeeds
 	MsgPath    []string `json:"msg_path,omitempty"`  // node path parsed from the message (public observable)
@@ -464,7 +482,11 @@ func project(err error) *Proj {
 	}
 	var c0 *custom0
 	var c1 *custom1
-	p.As = []int{-1, -1}
+	var cw *ctxErr
+	p.As = []int{-1, -1, -1}
+	if errors.As(err, &cw) {
+		p.As[2] = cw.code
+	}
 	if errors.As(err, &c0) {
 		p.As[0] = c0.code
 	}
